@@ -7,8 +7,15 @@
 //!   2 emit_u(k)                     3 emit_s(k, s: String) -> String
 //!   4 emit_o(k, v: i32) -> i32?     5 i32.mix(self, k, y) -> i32  (method)
 //!   6 emit3(k, a, b) -> i32         7 emit_l(k, l: List[i32]) -> List[i32]
+//!
+//! A registered host type `Tok` (a value type wrapping an `i32`, printed `T<v>`), for the calls
+//! the compiler inserts IMPLICITLY:
+//!   8 tok(k, v: i32) -> Tok         9 Tok.to_string(self) -> String   ("T<v>"; called for `{e}`
+//!                                      in an f-string when `e: Tok`, and callable as a method)
+//!  10 Tok.peek(self, k) -> i32     11 `==` / `!=` on two `Tok`s (the type's `PartialEq::eq`)
+//! `Clone` and `Drop` of `Tok` log nothing (they are not part of the property).
 
-use roto::{List, NoCtx, RotoString, Runtime, library};
+use roto::{List, NoCtx, RotoString, Runtime, Val, library};
 use std::sync::Mutex;
 
 pub static LOG: Mutex<Vec<String>> = Mutex::new(Vec::new());
@@ -29,8 +36,33 @@ pub fn show_list(l: &[i32]) -> String {
     format!("[{}]", l.iter().map(|x| x.to_string()).collect::<Vec<_>>().join(";"))
 }
 
+/// The registered host type: every method, and its equality, logs.
+#[derive(Clone, Debug)]
+pub struct Tok(pub i32);
+
+impl PartialEq for Tok {
+    fn eq(&self, other: &Self) -> bool {
+        log(format!("11(T{},T{})", self.0, other.0));
+        self.0 == other.0
+    }
+}
+
 pub fn runtime() -> Runtime<NoCtx> {
     Runtime::from_lib(library! {
+        /// A host value (prints as `T<v>`)
+        #[clone] type Tok = Val<Tok>;
+
+        /// log (8, k, v), return the token of v
+        fn tok(k: i32, v: i32) -> Val<Tok> { log(format!("8({k},{v})")); Val(Tok(v)) }
+
+        impl Val<Tok> {
+            /// log (9, self), return "T<v>"
+            fn to_string(s: Val<Tok>) -> RotoString { log(format!("9(T{})", s.0.0)); format!("T{}", s.0.0).as_str().into() }
+
+            /// log (10, self, k), return v
+            fn peek(s: Val<Tok>, k: i32) -> i32 { log(format!("10(T{},{k})", s.0.0)); s.0.0 }
+        }
+
         /// log (0, k, v), return v
         fn emit(k: i32, v: i32) -> i32 { log(format!("0({k},{v})")); v }
 
